@@ -5,6 +5,8 @@ import (
 	"go/token"
 	"go/types"
 
+	"golang.org/x/tools/go/ssa"
+
 	"risorcheck/core"
 )
 
@@ -16,13 +18,16 @@ func init() {
 			"(R2) acquire/release pairing: every function that arms the watcher disarms it on every exit including the panic path — the disarm call is an unconditional top-level statement of a deferred function and no return precedes it there; " +
 			"frames pushed above the current one are restored by a deferred resumeFrame (C04-R4); the inspect re-entrancy flags are cleared by defer; " +
 			"(R3) the state a fresh run depends on is reset when new code is run: the reset function assigns sp, ip, fp, halt, the active frame/code and the loaded-code and module caches; " +
-			"(R4) the dispatch function returns the error of the current context when halted (C06-R1).",
+			"(R4) frames pushed above the current one are restored through a deferred resumeFrame, so a Go panic crossing a call leaves fp/ip/sp as they were (same rule as C04-R4); " +
+			"(R5) publish-after-success: in a VM method that can fail, no error return is reachable after a store into a map field of the VM (module cache, loaded code): a failed or cancelled import must not leave a half-initialised entry that the next invocation finds.",
 		NotCovered:  "Stale contents of tmp/stack slots above sp, globals (intended to persist), the equality of outcomes with a fresh VM.",
 		Assumptions: []string{"defer runs on every exit including panics", "runMutex serialises arming/disarming"},
 		Rules: []*core.Rule{
 			{ID: "C07-R1", Title: "watcher is armed per run and scoped to it", Floor: 3, Run: func(c *core.Ctx) { watcherRules(c, "C07") }},
 			{ID: "C07-R2", Title: "arm/disarm pairing on every exit", Floor: 2, Run: c07r2},
 			{ID: "C07-R3", Title: "reset for new code covers the run state", Floor: 5, Run: c07r3},
+			{ID: "C07-R4", Title: "frames pushed above the current one are restored by defer (shared with C04-R4)", Floor: 3, Run: c04r4},
+			{ID: "C07-R5", Title: "VM-level caches are filled only after the fallible work succeeded", Floor: 1, Run: c07r5},
 		},
 	})
 }
@@ -239,4 +244,172 @@ func c07r3(c *core.Ctx) {
 		}
 	}
 	c.Check(called, "vm.VirtualMachine."+reset.Name()+"|called-on-run-path", posOf(p, resetDecl), "the run path calls the reset function")
+}
+
+// c07r5: publish-after-success for the VM's map-typed fields.
+func c07r5(c *core.Ctx) {
+	p := c.P
+	vmp := p.Pkg("vm")
+	vmT := core.MustType(vmp, "VirtualMachine")
+	st := vmT.Underlying().(*types.Struct)
+	mapField := map[int]string{}
+	for i := 0; i < st.NumFields(); i++ {
+		if _, ok := st.Field(i).Type().Underlying().(*types.Map); ok {
+			mapField[i] = st.Field(i).Name()
+		}
+	}
+	if len(mapField) == 0 {
+		core.Undecidedf("VirtualMachine has no map-typed field")
+	}
+	// memo caches: the entry is complete when stored and depends on the key only
+	exempt := map[string]string{
+		"loadedCode": "memo of the immutable compiler output, keyed by the *compiler.Code pointer; an entry is complete when stored",
+	}
+	fieldOfMap := func(v ssa.Value) string {
+		for _, o := range core.Origins(v) {
+			if u, ok := o.(*ssa.UnOp); ok && u.Op == token.MUL {
+				if fa, ok := u.X.(*ssa.FieldAddr); ok && core.NamedOf(fa.X.Type()) == vmT {
+					if name, ok := mapField[fa.Field]; ok {
+						return name
+					}
+				}
+			}
+		}
+		return ""
+	}
+	errIndex := func(fn *ssa.Function) int {
+		res := fn.Signature.Results()
+		for i := res.Len() - 1; i >= 0; i-- {
+			if isErrorType(res.At(i).Type()) {
+				return i
+			}
+		}
+		return -1
+	}
+	var all []*ssa.Function
+	var collect func(fn *ssa.Function)
+	collect = func(fn *ssa.Function) {
+		all = append(all, fn)
+		for _, a := range fn.AnonFuncs {
+			collect(a)
+		}
+	}
+	for _, m := range core.Methods(vmT) {
+		if sf := p.SSAFunc(m); sf != nil && sf.Blocks != nil {
+			collect(sf)
+		}
+	}
+	// helpers that cannot fail and publish into a VM map (directly or through another such helper):
+	// the unit of work is their caller
+	publishes := map[*ssa.Function]string{}
+	for changed := true; changed; {
+		changed = false
+		for _, fn := range all {
+			if errIndex(fn) >= 0 || publishes[fn] != "" {
+				continue
+			}
+			for _, b := range fn.Blocks {
+				for _, in := range b.Instrs {
+					switch x := in.(type) {
+					case *ssa.MapUpdate:
+						if f := fieldOfMap(x.Map); f != "" && exempt[f] == "" {
+							publishes[fn] = f
+							changed = true
+						}
+					case ssa.CallInstruction:
+						if cal := x.Common().StaticCallee(); cal != nil && publishes[cal] != "" {
+							publishes[fn] = publishes[cal]
+							changed = true
+						}
+					}
+				}
+			}
+		}
+	}
+	n := 0
+	for _, fn := range all {
+		errIdx := errIndex(fn)
+		for _, b := range fn.Blocks {
+			for i, in := range b.Instrs {
+				field, via := "", ""
+				switch x := in.(type) {
+				case *ssa.MapUpdate:
+					field = fieldOfMap(x.Map)
+				case ssa.CallInstruction:
+					if cal := x.Common().StaticCallee(); cal != nil && publishes[cal] != "" && errIdx >= 0 {
+						field, via = publishes[cal], " (through "+cal.Name()+")"
+					}
+				}
+				if field == "" {
+					continue
+				}
+				key := core.SSAName(fn) + "|" + field + "|publish-after-success"
+				if why, ok := exempt[field]; ok {
+					c.Pass(key, p.Pos(in.Pos()), "exempt: "+why)
+					continue
+				}
+				n++
+				if errIdx < 0 {
+					c.Pass(key, p.Pos(in.Pos()), core.SSAName(fn)+" cannot fail: the store into vm."+field+" is judged at its callers")
+					continue
+				}
+				bad := ""
+				seen := map[*ssa.BasicBlock]bool{}
+				var walk func(bb *ssa.BasicBlock, from int)
+				walk = func(bb *ssa.BasicBlock, from int) {
+					for _, x := range bb.Instrs[from:] {
+						if r, ok := x.(*ssa.Return); ok && len(r.Results) > errIdx {
+							rv := spilledResult(bb, r.Results[errIdx])
+							allNil := true
+							for _, o := range core.Origins(rv) {
+								if k, isC := o.(*ssa.Const); !isC || !k.IsNil() {
+									allNil = false
+								}
+							}
+							if !allNil {
+								bad = p.Pos(r.Pos())
+							}
+						}
+					}
+					for _, s := range bb.Succs {
+						if !seen[s] {
+							seen[s] = true
+							walk(s, 0)
+						}
+					}
+				}
+				walk(b, i+1)
+				c.Check(bad == "", key, p.Pos(in.Pos()),
+					core.SSAName(fn)+" stores into vm."+field+via+" only after everything that can fail has succeeded: an entry published before a failure (or a cancellation) stays in the cache and is served to the next invocation on the same VM"+ifs(bad != "", "; error return reachable after the store at "+bad))
+			}
+		}
+	}
+	c.Stat("vm_map_stores", n)
+}
+
+// spilledResult: with a defer in the function, results are spilled to a local
+// ("*t0 = v; rundefers; t = *t0; return t"); the value returned on this path is
+// the last store to that local in the returning block.
+func spilledResult(bb *ssa.BasicBlock, v ssa.Value) ssa.Value {
+	u, ok := v.(*ssa.UnOp)
+	if !ok || u.Op != token.MUL {
+		return v
+	}
+	al, ok := u.X.(*ssa.Alloc)
+	if !ok {
+		return v
+	}
+	var last ssa.Value
+	for _, in := range bb.Instrs {
+		if in == ssa.Instruction(u) {
+			break
+		}
+		if st, ok := in.(*ssa.Store); ok && st.Addr == ssa.Value(al) {
+			last = st.Val
+		}
+	}
+	if last != nil {
+		return last
+	}
+	return v
 }
